@@ -1287,7 +1287,9 @@ package http2
 //@ macro strmsOK(strms) = forall(i, 0, len(strms), strmOK(strms[i]))
 
 //@ # frames handed to the stream loop by the read loop (proved at the sends in readLoop: assert typed)
-//@ chan serverConn.reader: self.fr != nil && 0 <= self.kind && self.kind <= 9 && frameTypeOK(self.fr, self.kind) && self.length >= 0 && self.length <= 16777215
+//@ # (and asserts seq0: what arrives for stream 0 is a SETTINGS or a WINDOW_UPDATE frame, everything else was answered by the read loop)
+//@ chan serverConn.reader: self.fr != nil && 0 <= self.kind && self.kind <= 9 && frameTypeOK(self.fr, self.kind) && self.length >= 0 && self.length <= 16777215 &&
+//@ |   (self.stream == 0 ==> (self.kind == 4 || self.kind == 8))
 //@ # streams coming back from their handlers
 //@ # handlerDone is never closed (handlers select on handlerStop instead), so a receive always yields a stream
 //@ neverclosed serverConn.handlerDone
@@ -1390,6 +1392,7 @@ package http2
 
 //@ func (*serverConn).handleStreams.closeStream
 //@ inline
+//@ route remembered C08 C09
 //@ # a stream that leaves the table is remembered as closed first, whether or not its handler is still running:
 //@ # frames that arrive for it later are then told apart from frames on a stream that was never opened (RFC 7540 5.1)
 //@ ghost@call:markClosed#1 marked = arg0
@@ -1412,12 +1415,32 @@ package http2
 //@ loop 1: invariant ring: ringOK(outer(closedRing), outer(closedOldest))
 
 //@ func (*serverConn).handleStreams
-//@ props WIP
+//@ props C01 C06 C08 C09 C10 C13 C14 C17 C20
+//@ # which clause speaks for which property (everything else, the safety obligations included, counts for all of them)
+//@ route hpacksync C09
+//@ route datacredit C14
+//@ route truth_winstream C10
+//@ route truth_winconn C10
+//@ route truth_rstidle C10
+//@ route truth_closed C10
+//@ route truth_prioself C10
+//@ route truth_lowid C10
+//@ route disp C10
+//@ route delta C06
+//@ route rest C06
+//@ route legal C08 C01 C13
+//@ route bodylen C20 C01
+//@ route slot C13
+//@ route slots C13
 //@ requires conn: scInv(sc)
 //@ opt noframe=true
 //@ # ASSUMPTION: int64 window counters and the int stream counter do not overflow
 //@ opt noovf=true
 //@ ghost marked = 0
+//@ # has the frame of this iteration been through handleFrame (which runs header blocks through the HPACK decoder)?
+//@ ghost fed = true
+//@ ghost@call:releaseHandled#2 fed = false
+//@ ghost@call:(*serverConn).handleFrame#1 fed = true
 //@ # highest stream whose request has been handed to a handler
 //@ ghost maxd = 0
 //@ # ---- dispatch (C01, C08, C13, C20): only a complete, legal request that holds a slot reaches a handler ----
@@ -1445,6 +1468,12 @@ package http2
 //@ loop 0: invariant uniq: tblUniq(strms)
 //@ loop 0: invariant ids: tblIds(strms, sc.lastID)
 //@ loop 0: invariant disp: maxd <= sc.lastID
+//@ # ---- C09: a header block is skipped only when the connection is going down; on a connection that stays up
+//@ # (e.g. a stream refused for MaxConcurrentStreams) skipping it leaves the HPACK decoder out of step with the peer ----
+//@ loop 0: invariant hpacksync: handled == nil || !(handled.kind == FrameHeaders || handled.kind == FrameContinuation) || fed || sc.state == 1
+//@ # ---- C14: likewise a DATA frame is passed over (and its octets never handed back to the connection window, which
+//@ # handleFrame does on every path) only when the connection is going down ----
+//@ loop 0: invariant datacredit: handled == nil || handled.kind != FrameData || fed || sc.state == 1
 //@ loop 0: invariant slots: openStreams <= sc.st.maxStreams
 //@ # the frame handled in the last iteration is released at the top of the next one
 //@ loop 0: invariant handled: handled == nil || handled.fr != nil
